@@ -55,6 +55,16 @@ CHECKS = {
     design_ref="DESIGN.md section 4 / C05",
     technique="Coq-verified LP certificate checkers + untrusted exact solver as certificate producer + per-model translation validation of every solver entry point",
     note="Trusted: Coq kernel + vm_compute; Cert/Bridge.v translation (bounds as rows) and integer-box enumeration (executed, not yet proved); JSON/Gallina printers; Python comparison. z3 is NOT trusted. Mixed-integer models are certified only when their relaxation is infeasible."),
+ "C06": dict(
+    category="proof",
+    text="PARTIAL proof. A reference expander in Gallina (Model.Expand: ranges, arrays, enumerate, graph functions, nested iteration with scoping and destructuring, index flattening, the folds of every aggregation block, constraints and declarations with `for`) "
+         "is compared on every run with what the compiler produces for hundreds of generated data-driven programs: objective tree, constraints (names, sides, relations, order) and declared variables (names, types, order) must coincide. "
+         "Proved about the expander for data of any size: ranges yield exactly the whole numbers between their ends in order (empty exactly when they should be); nested iteration is the lexicographic product, first binder outermost; "
+         "sum/prod/avg blocks denote the sum/product/mean of their operands at every real assignment and the compiler's right-nested tree has the value of the hand-written left-nested `a + b + c`; index flattening is injective (x_1_23 vs x_12_3). "
+         "The comparison with the hand-unrolled text (written by the harness's own evaluator) is evaluated on the implementation at the level of linear models. Three genuine defects repaired (graph of isolated nodes unparseable, nested arrays with rows of different kinds not indexable, bound inference blind to coefficients written as constant expressions).",
+    design_ref="DESIGN.md section 4 / C06",
+    technique="Gallina reference expander with theorems on ranges, iteration order, folds and name flattening + per-program structural correspondence + hand-unrolled-text oracle on the implementation",
+    note=TB + " zip, set functions and string data are not generated."),
  "C07": dict(
     category="proof",
     text="Proved in Coq for all models and all real assignments: bounds_of is sound inside the box; every propagation step (affine rows with prefix/suffix sums, "
